@@ -1331,6 +1331,11 @@ fn release(g: &mut Inner, tid: Tid, lock: LockId, mode: Mode) {
 			Mode::Shared => {
 				if l.excl.is_none() && !l.shared.is_empty() {
 					l.shared.remove(0);
+				} else if l.excl.is_none() && l.is_rw {
+					//  * a shared unlock of a lock nobody holds makes the reader count underflow:
+					//    the lock looks read-locked by phantom readers for ever
+					l.shared.push(PHANTOM + 999);
+					l.auto_release = false;
 				}
 			}
 		}
